@@ -34,7 +34,9 @@ SHARD_TIMEOUT = {"quick": 900, "thorough": 7200}
 def gen_cases(tier, seed):
     rng = np.random.default_rng(seed + 1900)
     n = 40 if tier == "quick" else 600
-    return [{"seed": int(rng.integers(2**31)), "dim": [1, 1, 2, 2, 3][i % 5], "sym": bool(i % 2)} for i in range(n)]
+    # (dimension cycle of length 5, copula cycle of length 4: every combination appears)
+    return [{"seed": int(rng.integers(2**31)), "dim": [1, 1, 2, 2, 3][i % 5], "sym": bool(i % 2),
+             "copula": ["clayton-interior", "dependent", "clayton", "independent"][i % 4]} for i in range(n)]
 
 
 def run_case(case, R):
@@ -152,7 +154,10 @@ def _nd(case, R, rng):
     from rpylib.numerical.closedform.cflevycopula import CFLevyCopulaModel
 
     d = case["dim"]
-    cm = W.gen_copula_model_spec(rng, dim=d, kind=str(rng.choice(["clayton", "clayton", "independent", "dependent"])), exp=True)
+    want = case.get("copula") or str(rng.choice(["clayton", "clayton", "independent", "dependent"]))
+    cm = W.gen_copula_model_spec(rng, dim=d, kind=want.split("-")[0], exp=True)
+    if want == "clayton-interior":
+        cm["copula"]["eta"] = W.r6(rng.uniform(0.15, 0.85))       # mass in every orthant
     W.limit_variation(rng, cm, allow_infinite=bool(d == 2 and rng.random() < 0.3), y_hi=0.7)
     for ms in cm["margins"]:
         ms["r"] = max(cm["margins"][0]["r"], 0.005)
